@@ -468,29 +468,62 @@ func c13MapOrder(c *Ctx, E *effects.Analysis, S map[*ssa.Function]bool) {
 					}
 				}
 			}
-			// values leaving the loop through phis at the exit / header must be constants or loop-invariant
-			for _, blk := range []*ssa.BasicBlock{l.Header, l.Exit} {
-				for _, in := range blk.Instrs {
-					ph, ok := in.(*ssa.Phi)
-					if !ok {
-						break
+			// loop-carried variables (header phis): the value coming round the back edge must be a constant, the
+			// variable itself, a tree of those, or loop-invariant — not something computed from the iteration
+			for _, in := range l.Header.Instrs {
+				ph, ok := in.(*ssa.Phi)
+				if !ok {
+					break
+				}
+				for i, e := range ph.Edges {
+					if !l.Blocks[l.Header.Preds[i]] {
+						continue
 					}
-					for i, e := range ph.Edges {
-						pred := blk.Preds[i]
-						if !l.Blocks[pred] {
+					if _, isC := e.(*ssa.Const); isC || e == ssa.Value(ph) {
+						continue
+					}
+					if ein, isIn := e.(ssa.Instruction); isIn && l.Blocks[ein.Block()] {
+						if p2, isPhi := e.(*ssa.Phi); isPhi && phiOfConstsOrSelf(p2, ph, l) {
 							continue
 						}
-						if _, isC := e.(*ssa.Const); isC {
-							continue
-						}
-						if ein, isIn := e.(ssa.Instruction); isIn && l.Blocks[ein.Block()] && ein.Block() != l.Header {
-							// defined inside the loop body: fine only for phi-trees of constants
-							if p2, isPhi := e.(*ssa.Phi); isPhi && phiOfConstsOrSelf(p2, ph, l) {
-								continue
-							}
-							bad = "variable " + ph.Comment + " receives a value computed from the iteration (" + stripIDs(e.Name()) + "): its final value depends on map order"
+						bad = "variable " + ph.Comment + " receives a value computed from the iteration (" + stripIDs(e.Name()) + "): its final value depends on map order"
+					}
+				}
+			}
+			// values defined inside the loop and used after it (through break/return paths, exit phis, …) must be
+			// constant flags; a key, a value or anything computed from them that escapes is "whichever came first"
+			for _, b := range sortedBlocks(l.Blocks) {
+				for _, in := range b.Instrs {
+					v, ok := in.(ssa.Value)
+					if !ok || v.Referrers() == nil {
+						continue
+					}
+					escapes := false
+					var where ssa.Instruction
+					for _, r := range *v.Referrers() {
+						if r.Block() != nil && !l.Blocks[r.Block()] {
+							escapes = true
+							where = r
 						}
 					}
+					if !escapes {
+						continue
+					}
+					if ph, isPhi := v.(*ssa.Phi); isPhi {
+						if b == l.Header {
+							continue // judged above
+						}
+						if phiOfConstsOrSelf(ph, nil, l) {
+							continue
+						}
+					}
+					what := stripIDs(v.Name())
+					if ex, isEx := v.(*ssa.Extract); isEx {
+						if _, isNext := ex.Tuple.(*ssa.Next); isNext {
+							what = map[int]string{0: "the has-next flag", 1: "the iteration key", 2: "the iteration value"}[ex.Index]
+						}
+					}
+					bad = fmt.Sprintf("%s of one iteration is used after the loop (at %s): which iteration that is depends on map order", what, c.P.Pos(where.Pos()))
 				}
 			}
 			R.Check(bad == "", "C13.R4", key, cons, pos, "only constant flags / break / merges into a fresh map", bad)
